@@ -192,15 +192,18 @@ package fiber
 //@   modifies c.indexRoute, heap(E_string), respHdr, respSet
 
 //@ func NewError assumed pure fresh
+//@   ensures carries-code: result.Code == code
 
 // next: scans the bucket from the position after c.indexRoute, skips mount markers and routes that do not
 // match, and runs the first handler of the first route that matches; nothing matched => error.
 //@ func (*App).next
 //@   props C01
-//@   requires method-known: 0 <= c.methodInt && c.methodInt < len(app.treeStack)
-//@   requires trees-wf: wfTrees(app)
-//@   requires paths-wf: foldPrefix(dpOf(c), pathOf(c))
-//@   requires resume-position: c.indexRoute >= -1
+//@   assumes method-known: 0 <= c.methodInt && c.methodInt < len(app.treeStack)
+//@   assumes trees-wf: wfTrees(app)
+//@   assumes paths-wf: foldPrefix(dpOf(c), pathOf(c))
+//@   assumes resume-position: c.indexRoute >= -1
+//@   assumes ctx-of-this-app: c.app == app
+//@   assumes one-tree-per-method: len(app.treeStack) == len(app.config.RequestMethods)
 //@   loop 1
 //@     invariant position: old(c.indexRoute) <= c.indexRoute
 //@     invariant skipped-do-not-match: forall(k, old(c.indexRoute) + 1, c.indexRoute + 1, tree[k].mount || !matches(tree[k], dpOf(c), pathOf(c), epoch))
@@ -210,3 +213,84 @@ package fiber
 //@   atcall Route.Handlers$elem: context-points-at-route: c.route == route && c.indexHandler == 0 && as(arg0, *DefaultCtx) == c
 //@   atcall Route.Handlers$elem: matched-flag: c.matched == (old(c.matched) || !route.use)
 //@   ensures no-match-is-an-error: !called(Route.Handlers$elem) ==> !result0 && result1 != nil
+
+// The same scan for custom contexts: all state is reached through the CustomCtx interface (assumed contracts:
+// accessor pairs over ghost maps; the detection path is the folded path).
+//@ ghost ciIdx map[ref]int
+//@ ghost ciMatched map[ref]bool
+//@ ghost ciRoute map[ref]ref
+//@ ghost ciHandler map[ref]int
+//@ fn cdp(c ref, ep int) string
+//@ fn cpath(c ref, ep int) string
+//@ fn cmethodInt(c ref, ep int) int
+//@ fn chash(c ref, ep int) int
+//@ func CustomCtx.getDetectionPath(recv) assumed pure
+//@   ensures result == cdp(recv, epoch) && foldPrefix(result, cpath(recv, epoch))
+//@ func CustomCtx.Path(recv, override) assumed pure
+//@   ensures len(override) == 0 ==> result == cpath(recv, epoch)
+//@ func CustomCtx.getValues(recv) assumed pure
+//@   ensures result != nil
+//@ func CustomCtx.getMethodInt(recv) assumed pure
+//@   ensures result == cmethodInt(recv, epoch)
+//@ func CustomCtx.getTreePathHash(recv) assumed pure
+//@   ensures result == chash(recv, epoch)
+//@ func CustomCtx.getIndexRoute(recv) assumed pure
+//@   ensures result == ciIdx[recv]
+//@ func CustomCtx.setIndexRoute(recv, route) assumed
+//@   modifies ciIdx
+//@   ensures ciIdx == old(ciIdx)[recv := route]
+//@ func CustomCtx.getMatched(recv) assumed pure
+//@   ensures result == ciMatched[recv]
+//@ func CustomCtx.setMatched(recv, matched) assumed
+//@   modifies ciMatched
+//@   ensures ciMatched == old(ciMatched)[recv := matched]
+//@ func CustomCtx.setRoute(recv, route) assumed
+//@   modifies ciRoute
+//@   ensures ciRoute == old(ciRoute)[recv := route]
+//@ func CustomCtx.setIndexHandler(recv, handler) assumed
+//@   modifies ciHandler
+//@   ensures ciHandler == old(ciHandler)[recv := handler]
+//@ func CustomCtx.Method(recv, override) assumed pure
+//@   requires [C07] method-known: cmethodInt(recv, epoch) != -1
+//@ func CustomCtx.getPathOriginal(recv) assumed pure
+//@ func (*App).methodExistCustom assumed
+//@   modifies ciIdx, heap(E_string), respHdr, respSet
+
+// nextCustom does not skip mount markers (next does): it relies on the start-up splice having replaced them.
+//@ func (*App).nextCustom
+//@   props C01 C02
+//@   assumes method-known: 0 <= cmethodInt(c, epoch) && cmethodInt(c, epoch) < len(app.treeStack)
+//@   assumes trees-wf: wfTrees(app)
+//@   assumes no-mount-markers: forallI(m, forallI(h, 0 <= m && m < len(app.treeStack) ==> forall(i, 0, len(app.treeStack[m][h]), !app.treeStack[m][h][i].mount)))
+//@   assumes resume-position: ciIdx[c] >= -1
+//@   loop 1
+//@     invariant position: old(ciIdx)[c] <= ciIdx[c] && ciMatched[c] == old(ciMatched)[c]
+//@     invariant skipped-do-not-match: forall(k, old(ciIdx)[c] + 1, ciIdx[c] + 1, !matches(tree[k], cdp(c, epoch), cpath(c, epoch), epoch))
+//@   atcall Route.Handlers$elem: runs-first-match: matches(route, cdp(c, epoch), cpath(c, epoch), epoch) && tree[ciIdx[c]] == route &&
+//@ ..    old(ciIdx)[c] < ciIdx[c] && forall(k, old(ciIdx)[c] + 1, ciIdx[c], !matches(tree[k], cdp(c, epoch), cpath(c, epoch), epoch))
+//@   atcall Route.Handlers$elem: context-points-at-route: ciRoute[c] == route && ciHandler[c] == 0 && arg0 == c
+//@   atcall Route.Handlers$elem: matched-flag: ciMatched[c] == (old(ciMatched)[c] || !route.use)
+//@   ensures no-match-is-an-error: !called(Route.Handlers$elem) ==> !result0 && result1 != nil
+
+// addRoute: a registration is merged into the previous route of the method's stack only when it has the same
+// registered path, the same kind (use/endpoint) and neither is a mount marker; otherwise it is appended with
+// the next position. Merging must not write into a backing array that already exists (routes registered
+// together share their handler slice).
+//@ fn methodIdx(app ref, s string, ep int) int
+//@ func (*App).methodInt assumed pure
+//@   ensures result == methodIdx(app, s, epoch) && -1 <= result && result < len(app.config.RequestMethods)
+//@ func (*Hooks).executeOnRouteHooks assumed pure
+//@ macro lastOf(app, m) = old(app.stack[m])[old(len(app.stack[m])) - 1]
+//@ macro mergeable(app, m, route) = old(len(app.stack[m])) > 0 && old(lastOf(app, m).Path) == old(route.Path) && old(route.use) == old(lastOf(app, m).use) && !old(route.mount) && !old(lastOf(app, m).mount)
+//@ func (*App).addRoute
+//@   props C01 C02
+//@   panics
+//@   requires lock-free: !held(app.mutex)
+//@   requires positions-left: app.routesCount < 4294967295
+//@   requires method-valid: 0 <= methodIdx(app, method, epoch) && methodIdx(app, method, epoch) < len(app.stack)
+//@   requires route-given: route != nil && forall(i, 0, len(app.stack[methodIdx(app, method, epoch)]), app.stack[methodIdx(app, method, epoch)][i] != nil)
+//@   ensures merged-only-same-registration: len(app.stack[methodIdx(app, method, epoch)]) == old(len(app.stack[methodIdx(app, method, epoch)])) <==> mergeable(app, methodIdx(app, method, epoch), route)
+//@   ensures appended-with-next-position: !mergeable(app, methodIdx(app, method, epoch), route) ==> len(app.stack[methodIdx(app, method, epoch)]) == old(len(app.stack[methodIdx(app, method, epoch)])) + 1 &&
+//@ ..    app.stack[methodIdx(app, method, epoch)][old(len(app.stack[methodIdx(app, method, epoch)]))] == route && route.pos == old(app.routesCount) + 1 && app.routesCount == old(app.routesCount) + 1
+//@   ensures merged-handlers-appended: mergeable(app, methodIdx(app, method, epoch), route) ==> len(lastOf(app, methodIdx(app, method, epoch)).Handlers) == old(len(lastOf(app, methodIdx(app, method, epoch)).Handlers)) + old(len(route.Handlers))
+//@   ensures merge-never-writes-shared-array: mergeable(app, methodIdx(app, method, epoch), route) && old(len(route.Handlers)) > 0 ==> !wasAllocated(arr(lastOf(app, methodIdx(app, method, epoch)).Handlers))
